@@ -105,6 +105,16 @@ check("C02", "exploration",
       "vt.ref.packfmt validated on git-written packs each run; byte identity with git's idx only for v2/SHA-1; delta choices never compared; the low-level writers' returned entry table is SHA-1 keyed, so SHA-256 is driven through the object store (the supported path)",
       "DESIGN.md §5 C02")
 
+check("C07", "fault_enumeration",
+      "runtime monitoring under a deterministic scheduler: os.*/open interposition gives system-call-granularity yield points; all interleavings of 2 lock-file writers (DFS, exhaustive) and preemption-bounded interleavings of 3 are executed against the real GitFile with a shadow-state monitor (lock creator, hold intervals, content after every step); every file-system call of 16 lock-protocol routines is failed with ENOSPC/EIO/EPERM/KeyboardInterrupt/persistent ENOSPC",
+      "Schedules: 6 two-writer shapes explored exhaustively (evidence lists runs and 'exhausted'), 2 three-writer shapes under preemption "
+      "bound 2 (thorough 3). Monitors: mutual exclusion, foreign-lock disturbance, atomic replacement after every step, payload-at-rename, "
+      "loser gets FileLocked. Faults: each call of index/refs/packed-refs/config/loose-object/shallow/commit-graph/named-file writers x 5 "
+      "fault kinds; oracle after the exception was handled and collected: every file complete-old or complete-new, no *.lock left, next "
+      "writer succeeds.",
+      "atomicity of a single rename(2)/open(O_EXCL) assumed from POSIX; interleavings at the granularity of interposed Python-level calls; actors are threads with separate objects sharing only the directory",
+      "DESIGN.md §5 C07")
+
 ALL = ["C%02d" % i for i in range(1, 21)]
 
 
